@@ -1,6 +1,7 @@
 package main
 
 import (
+	"hash/fnv"
 	"encoding/json"
 	"flag"
 	"fmt"
@@ -124,10 +125,16 @@ func readExpect(path string) (map[string]bool, bool) {
 		if ln == "" || strings.HasPrefix(ln, "#") {
 			continue
 		}
-		out[ln] = true
+		out[splitBase(ln)] = true
 	}
 	return out, true
 }
+
+var splitSuffix = regexp.MustCompile(`\.\d+$`)
+
+// splitBase strips the ".k" suffix of a conjunct obtained by goal splitting: how many conjuncts a goal has depends on
+// what the simplifier folds away, so expectations and known findings are kept per goal, not per conjunct.
+func splitBase(name string) string { return splitSuffix.ReplaceAllString(name, "") }
 
 func runCheck(r *propRun) int {
 	t0 := time.Now()
@@ -321,14 +328,80 @@ func runCheck(r *propRun) int {
 		texts = append(texts, q)
 		funcs = append(funcs, "lemma:"+l.Name)
 	}
+	// thorough tier: zero-annotation no-panic sweep over the other functions of the property's anchor files
+	sweepArmed := map[string]bool{}
+	sweepFuncs := 0
+	if r.tier == "thorough" && r.funcOnly == "" {
+		armed, _ := readExpect(filepath.Join(r.verif, "obligations", r.prop+".sweep.expect"))
+		anchors := anchorFiles(r.verif, r.prop)
+		under := map[string]bool{}
+		for _, c := range cons {
+			under[c.FullKey] = true
+		}
+		var keys []string
+		for k, fn := range eng.funcsByKey {
+			if under[k] || len(fn.Blocks) == 0 || fn.Pkg == nil || fn.Synthetic != "" || eng.ssaPkgs[fn.Pkg.Pkg.Path()] == nil || !fn.Pos().IsValid() {
+				continue
+			}
+			file := strings.TrimPrefix(eng.fset.Position(fn.Pos()).Filename, r.repo+"/")
+			if anchors[file] {
+				keys = append(keys, k)
+			}
+		}
+		sort.Strings(keys)
+		for _, k := range keys {
+			func() {
+				defer func() { _ = recover() }()
+				c := &Contract{Key: k, FullKey: k, PkgPath: eng.funcsByKey[k].Pkg.Pkg.Path(), LoopInv: map[int][]*Clause{}, LoopMod: map[int][]*SExpr{}, Opts: map[string]string{"nopanic": "all"}}
+				fr := eng.VerifyFunc(c)
+				if fr.Err != nil {
+					return
+				}
+				sweepFuncs++
+				occ := map[string]int{}
+				for _, o := range fr.Obligs {
+					if o.Kind != "nopanic" {
+						continue
+					}
+					// named after the text of the source line, not an ordinal: edits elsewhere in the function must
+					// not move an armed name onto a different dereference
+					base := o.Name
+					if i := strings.LastIndex(base, "#"); i >= 0 {
+						base = base[:i]
+					}
+					stable := fmt.Sprintf("%s@%s", base, lineHash(r.repo, o.Where))
+					occ[stable]++
+					if occ[stable] > 1 {
+						stable = fmt.Sprintf("%s~%d", stable, occ[stable])
+					}
+					name := r.prop + "/sweep/" + shortFunc(k) + "/" + stable
+					if !r.update && !armed[name] {
+						continue // only obligations that discharge on the unchanged tree are armed
+					}
+					sweepArmed[name] = true
+					asserts := append([]*Term{}, fr.Exec.assumps[:o.NAssump]...)
+					asserts = append(asserts, o.Guard, Not(o.Goal))
+					verdicts = append(verdicts, &Verdict{Name: name, Oblig: o, FuncKey: k})
+					texts = append(texts, SMTQuery(asserts, nil, false))
+				}
+			}()
+		}
+	}
 	tGen := time.Since(tGen0).Seconds()
 
 	cfg := solveCfg{workDir: workDir, quickT: r.quickT, slowT: r.slowT, tier: r.tier, parallel: 14}
 	if r.tier == "thorough" {
-		cfg.slowT = 120
+		cfg.slowT = 45
 		cfg.parallel = 5
 	}
 	tSolve0 := time.Now()
+	// obligations recorded as known findings are expected to fail: give them the first two solver stages only
+	cfg.short = map[string]bool{}
+	for _, kf := range readKnownFindings(filepath.Join(r.verif, "KNOWN_FINDINGS.txt")) {
+		if kf.Prop == r.prop {
+			cfg.short[kf.Oblig] = true
+		}
+	}
 	solveAll(cfg, verdicts, texts)
 	tSolve := time.Since(tSolve0).Seconds()
 
@@ -338,7 +411,7 @@ func runCheck(r *propRun) int {
 	known := readKnownFindings(filepath.Join(r.verif, "KNOWN_FINDINGS.txt"))
 	isKnown := func(name string) *knownFinding {
 		for i := range known {
-			if known[i].Prop == r.prop && known[i].Oblig == name {
+			if known[i].Prop == r.prop && (known[i].Oblig == name || known[i].Oblig == splitBase(name)) {
 				return &known[i]
 			}
 		}
@@ -347,13 +420,14 @@ func runCheck(r *propRun) int {
 
 	sort.Slice(verdicts, func(i, j int) bool { return verdicts[i].Name < verdicts[j].Name })
 	nObl, nDis, nCover := 0, 0, 0
+	sweepNotes := 0
 	var violations []string
 	var knownHit []string
 	seen := map[string]bool{}
 	solverTime := 0.0
 	bySolver := map[string]int{}
 	for _, v := range verdicts {
-		seen[v.Name] = true
+		seen[splitBase(v.Name)] = true
 		solverTime += v.Secs
 		switch v.Status {
 		case "covered":
@@ -366,6 +440,14 @@ func runCheck(r *propRun) int {
 			nDis++
 			bySolver[v.Solver]++
 		case "failed":
+			if strings.HasPrefix(v.Name, r.prop+"/sweep/") {
+				if !r.update {
+					// a line that was provably panic-free no longer is: worth a look, but it is not the property
+					fmt.Printf("SWEEP-NOTE property=%s %s no longer provably panic-free (%s) [%s]\n", r.prop, v.Name, v.Answer, v.Oblig.Where)
+					sweepNotes++
+				}
+				continue // never a violation: the sweep has no contracts, so a failure may just need a precondition
+			}
 			nObl++
 			if kf := isKnown(v.Name); kf != nil {
 				knownHit = append(knownHit, fmt.Sprintf("KNOWN-FINDING: property=%s %s — %s", r.prop, v.Name, kf.Text))
@@ -392,15 +474,33 @@ func runCheck(r *propRun) int {
 	}
 
 	if r.update {
-		var lines []string
+		var lines, sweepLines []string
+		bad := map[string]bool{}
 		for _, v := range verdicts {
-			if v.Status == "discharged" || v.Status == "covered" {
-				lines = append(lines, v.Name)
+			if v.Status != "discharged" && v.Status != "covered" {
+				bad[splitBase(v.Name)] = true
+			}
+		}
+		done := map[string]bool{}
+		for _, v := range verdicts {
+			b := splitBase(v.Name)
+			if (v.Status == "discharged" || v.Status == "covered") && !bad[b] && !done[b] {
+				done[b] = true
+				if strings.HasPrefix(b, r.prop+"/sweep/") {
+					sweepLines = append(sweepLines, b)
+				} else {
+					lines = append(lines, b)
+				}
 			}
 		}
 		_ = os.MkdirAll(filepath.Dir(expectPath), 0o755)
 		_ = os.WriteFile(expectPath, []byte(strings.Join(lines, "\n")+"\n"), 0o644)
 		fmt.Printf("wrote %s (%d obligations)\n", expectPath, len(lines))
+		if r.tier == "thorough" {
+			sp := filepath.Join(r.verif, "obligations", r.prop+".sweep.expect")
+			_ = os.WriteFile(sp, []byte(strings.Join(sweepLines, "\n")+"\n"), 0o644)
+			fmt.Printf("wrote %s (%d armed sweep obligations)\n", sp, len(sweepLines))
+		}
 	}
 
 	// report
@@ -479,6 +579,9 @@ func runCheck(r *propRun) int {
 	for _, x := range cat["pure"] {
 		assumptions = append(assumptions, "pure observer (uninterpreted function of its arguments; object assumed immutable): "+x)
 	}
+	for _, x := range cat["getter"] {
+		assumptions = append(assumptions, "getter of an environment object (no effect; arbitrary result made of objects that existed before the call): "+x)
+	}
 	for _, x := range cat["trusted"] {
 		assumptions = append(assumptions, "trusted (unverified) contract on repository function: "+x)
 	}
@@ -537,6 +640,9 @@ func runCheck(r *propRun) int {
 			"obligation_list":          obList,
 			"known_findings_hit":       knownHit,
 			"function_errors":          funcErrs,
+			"nopanic_sweep_functions":  sweepFuncs,
+			"nopanic_sweep_armed":      len(sweepArmed),
+			"nopanic_sweep_notes":      sweepNotes,
 			"bounded":                  []string{},
 		},
 		"assumptions": assumptions,
@@ -595,7 +701,7 @@ func failHard(r *propRun, msg string) int {
 // lemmaQuery builds the query for a lemma: axioms of the same file set plus the negated statement.
 func (e *Engine) lemmaQuery(l *Lemma) (q string, err error) {
 	ex := &Exec{eng: e, heapSrt: map[string]Sort{}, notes: map[string]bool{}, callOrd: map[string]int{}, ordinal: map[string]int{}, checked: map[string]bool{}}
-	st := &State{cells: map[*Cell]Val{}, heap: map[string]*Term{}, guard: True, wm: Sym("alloc0", SInt)}
+	st := &State{cells: map[*Cell]Val{}, heap: map[string]*Term{}, guard: True, wm: newWMs()}
 	ex.entry = st
 	defer func() {
 		if r := recover(); r != nil {
@@ -668,7 +774,7 @@ func runSweep(args []string) int {
 					fmt.Printf("CRASH %s: %v\n", shortFunc(k), truncate(fmt.Sprint(r), 300))
 				}
 			}()
-			c := &Contract{Key: k, FullKey: k, PkgPath: eng.funcsByKey[k].Pkg.Pkg.Path(), LoopInv: map[int][]*Clause{}, LoopMod: map[int][]*SExpr{}, Opts: map[string]string{}}
+			c := &Contract{Key: k, FullKey: k, PkgPath: eng.funcsByKey[k].Pkg.Pkg.Path(), LoopInv: map[int][]*Clause{}, LoopMod: map[int][]*SExpr{}, Opts: map[string]string{"nopanic": "all"}}
 			fr := eng.VerifyFunc(c)
 			if fr.Err != nil {
 				msg := fr.Err.Error()
@@ -711,4 +817,53 @@ func hasQuant(t *Term, seen map[int]bool) bool {
 		}
 	}
 	return false
+}
+
+// anchorFiles reads the anchor file list of a property from properties.jsonl.
+var lineCache = map[string][]string{}
+
+// lineHash identifies a source position by the text of its line (trimmed), so that it survives edits elsewhere.
+func lineHash(repo, where string) string {
+	i := strings.LastIndex(where, ":")
+	if i < 0 {
+		return "nopos"
+	}
+	file, ln := where[:i], 0
+	fmt.Sscanf(where[i+1:], "%d", &ln)
+	lines, ok := lineCache[file]
+	if !ok {
+		data, err := os.ReadFile(filepath.Join(repo, file))
+		if err == nil {
+			lines = strings.Split(string(data), "\n")
+		}
+		lineCache[file] = lines
+	}
+	if ln < 1 || ln > len(lines) {
+		return "nopos"
+	}
+	h := fnv.New32a()
+	h.Write([]byte(strings.Join(strings.Fields(lines[ln-1]), " ")))
+	return fmt.Sprintf("%08x", h.Sum32())
+}
+
+func anchorFiles(verif, prop string) map[string]bool {
+	out := map[string]bool{}
+	data, err := os.ReadFile(filepath.Join(verif, "properties.jsonl"))
+	if err != nil {
+		return out
+	}
+	for _, ln := range strings.Split(string(data), "\n") {
+		var d struct {
+			ID      string `json:"id"`
+			Anchors struct {
+				Files []string `json:"files"`
+			} `json:"anchors"`
+		}
+		if json.Unmarshal([]byte(ln), &d) == nil && d.ID == prop {
+			for _, f := range d.Anchors.Files {
+				out[f] = true
+			}
+		}
+	}
+	return out
 }
